@@ -208,6 +208,7 @@ class Tr:
         self.objs = {}     # id(future) -> (path, future)   (keeps the objects alive)
         self.vars = {}
         self.errs = {}
+        self.counter = 0
 
     def aux(self, e):
         self.full.append(e)
@@ -230,8 +231,9 @@ class Tr:
 
     # --- creation
     def _alloc(self, _id, _n):
-        cid = tuple(_id) + (_n[0],)
-        _n[0] += 1
+        # futures are numbered in creation order (one counter per case), as in Machine.alloc
+        cid = (self.counter,)
+        self.counter += 1
         return cid
 
     def _reg(self, cid, f, what, creator, extra=None):
